@@ -231,6 +231,9 @@ def parent_main(pid, tier, seed):
     rc = 0
     lines = []
     os.makedirs(os.path.join(VERIF_DIR, 'replays'), exist_ok=True)
+    for fn in os.listdir(os.path.join(VERIF_DIR, 'replays')):
+        if fn.startswith(pid + '-'):
+            os.unlink(os.path.join(VERIF_DIR, 'replays', fn))
     for key, vs in sorted(unknown.items()):
         for j, v in enumerate(vs[:2]):
             path = os.path.join('replays', '%s-%s-%d.json' % (pid, _safe(key), j))
